@@ -68,21 +68,88 @@ def _record(op, path, follows):
             if ap.startswith(pre):
                 return
 
-        # resolve now: parent fully, final component only if followed
+        # resolve now, the way the kernel does: component by component,
+        # following links (the final one only if the call does), stopping
+        # at the first component that is missing
         try:
-            if follows:
-                real = os.path.realpath(ap)
-            else:
-                head, tail = os.path.split(ap.rstrip(b'/') or b'/')
-                real = os.path.join(os.path.realpath(head), tail)
+            real, strayed = _walk(ap, follows)
         except (OSError, ValueError):
-            real = ap
+            real, strayed = ap, None
 
         root = _state['root']
-        inside = real == root or real.startswith(root + b'/')
-        _state['records'].append((op, p, real, inside))
+        inside = strayed is None and \
+            (real == root or real.startswith(root + b'/'))
+        _state['records'].append((op, p, strayed or real, inside))
     finally:
         _state['busy'] = False
+
+
+def _on_the_way(path):
+    """Inside the root, the root, or a directory the root lies in"""
+
+    root = _state['root']
+    return path == root or path.startswith(root + b'/') or \
+        root.startswith(path.rstrip(b'/') + b'/')
+
+
+def _walk(ap, follows):
+    """Where an absolute path leads at this moment, and the first name
+       looked up on the way that lies neither inside the root nor on the way
+       down to it (None if there is none).  A missing component ends the
+       walk, as it ends the system call: what a lexical normalisation of
+       the rest would give is never reached."""
+
+    import stat as st_mod
+    lstat = _ORIG.get('lstat', os.lstat)
+    readlink = _ORIG.get('readlink', os.readlink)
+    todo = [c for c in ap.split(b'/') if c]
+    cur = b'/'
+    strayed = None
+    nlinks = 0
+
+    while todo:
+        c = todo.pop(0)
+
+        if c == b'.':
+            continue
+
+        if c == b'..':
+            cur = os.path.dirname(cur)
+            continue
+
+        nxt = os.path.join(cur, c)
+
+        if strayed is None and not _on_the_way(nxt):
+            strayed = nxt
+
+        try:
+            mode = lstat(nxt).st_mode
+        except OSError:
+            return nxt, strayed
+
+        if st_mod.S_ISLNK(mode) and (todo or follows):
+            nlinks += 1
+
+            if nlinks > 40:
+                return nxt, strayed
+
+            target = readlink(nxt)
+
+            if target.startswith(b'/'):
+                cur = b'/'
+
+            todo = [x for x in target.split(b'/') if x] + todo
+            continue
+
+        if todo and not st_mod.S_ISDIR(mode):
+            return nxt, strayed
+
+        cur = nxt
+
+    return cur, strayed
+
+
+_ORIG = {}
 
 
 def _hook(event, args):
@@ -121,6 +188,18 @@ def install():
 
     def realpath(path, *args, **kwargs):
         was = _state['busy']
+
+        if _state['on'] and not was:
+            # ... unless the path is a relative one: it is then anchored
+            # at the working directory and not at anything that was checked
+            try:
+                rel = os.fsencode(path)
+
+                if rel and not rel.startswith(b'/'):
+                    _record('os.path.realpath', rel, True)
+            except (TypeError, ValueError):
+                pass
+
         _state['busy'] = True
 
         try:
@@ -133,6 +212,7 @@ def install():
 
     for name, follows in _WRAPPED.items():
         orig = getattr(os, name)
+        _ORIG[name] = orig
 
         def wrapper(path, *args, _orig=orig, _name=name, _follows=follows,
                     **kwargs):
